@@ -30,7 +30,7 @@ impl Check for C17 {
         "model_checking"
     }
     fn n_items(&self, tier: Tier) -> u64 {
-        (scen(tier).len() + srv_scen(tier).len()) as u64 + seq_items(tier)
+        (scen(tier).len() + srv_scen(tier).len()) as u64 + seq_items(tier) + crate::props::extremes::n_items() as u64
     }
     fn chunk(&self, _tier: Tier) -> u64 {
         4
@@ -42,13 +42,15 @@ impl Check for C17 {
         } else if idx < nq + srv_scen(tier).len() as u64 {
             let (sc, bound) = &srv_scen(tier)[(idx - nq) as usize];
             srvq::run_item("C17", sc, *bound, tier, acc);
-        } else {
+        } else if idx < nq + srv_scen(tier).len() as u64 + seq_items(tier) {
             seq_run_item(idx - nq - srv_scen(tier).len() as u64, tier, acc);
+        } else {
+            crate::props::extremes::run_item((idx - nq - srv_scen(tier).len() as u64 - seq_items(tier)) as usize, tier, acc);
         }
     }
     fn rule(&self, tier: Tier) -> String {
         format!(
-            "{} || server seam: real Server, application threads with programs over {{recv, recv_timeout(T), try_recv, incoming_requests().next() on a fresh iterator, next() on one iterator kept across calls}} (every single program and pair{}), connections {} with pipelined requests, {} unblock calls, receivers blocked first or racing; {} scenarios, strict bound {}; same oracles read through Server::verif_queue_snapshot (hook H5) || sequential family: EVERY sequence of {} operations over {{push, unblock, try_pop, pop_timeout(T), pop}} run by one thread ({} programs), with the queue's (requests, tokens) snapshot before and after every call: a call that returns empty-handed while a request is queued must have consumed exactly one token, requests come out in push order exactly once, try_pop enters no wait, pop_timeout bounds",
+            "{} || server seam: real Server, application threads with programs over {{recv, recv_timeout(T), try_recv, incoming_requests().next() on a fresh iterator, next() on one iterator kept across calls}} (every single program and pair{}), connections {} with pipelined requests, {} unblock calls, receivers blocked first or racing; {} scenarios, strict bound {}; same oracles read through Server::verif_queue_snapshot (hook H5) || sequential family: EVERY sequence of {} operations over {{push, unblock, try_pop, pop_timeout(T), pop}} run by one thread ({} programs), with the queue's (requests, tokens) snapshot before and after every call: a call that returns empty-handed while a request is queued must have consumed exactly one token, requests come out in push order exactly once, try_pop enters no wait, pop_timeout bounds || {}",
             rule_text("C17", tier, scen(tier).len()),
             if tier == Tier::Thorough { " and one triple" } else { "" },
             if "C17" == "C07" { "[1] [2] [1,1] [2,1]" } else { "[] [1] [1,1]" },
@@ -56,7 +58,8 @@ impl Check for C17 {
             srv_scen(tier).len(),
             if tier == Tier::Thorough { "2 (<= 2 receivers+connections) / 1" } else { "1 / 0" },
             if tier == Tier::Thorough { SEQ_DEPTH_THOROUGH } else { SEQ_DEPTH_QUICK },
-            seq_items(tier) * 25
+            seq_items(tier) * 25,
+            crate::props::extremes::RULE
         )
     }
     fn assumptions(&self) -> Vec<String> {
@@ -66,7 +69,9 @@ impl Check for C17 {
         ]
     }
     fn replay(&self, replay: &Value, acc: &mut Acc) {
-        if replay.get("sequential_ops").is_some() {
+        if crate::props::extremes::is_replay(replay) {
+            crate::props::extremes::replay(replay, acc);
+        } else if replay.get("sequential_ops").is_some() {
             seq_replay(replay, acc);
         } else if replay["scenario"]["seam"].as_str() == Some("Server") {
             srvq::replay("C17", replay, acc);
